@@ -111,11 +111,15 @@ class C12(Check):
             if not plan["silent"]:
                 ops = [o for o in ops if not is_silent_op(o)]
             drops = sorted(rng.sample(range(len(ops)), min(len(ops), rng.choice([0, 1, 2, 4])))) if plan["silent"] and ops else []
-            recs.append({"ecu": e, "ops": ops, "tag": r + 1, "drops": drops})
+            lates = sorted(rng.sample(range(len(ops)), min(len(ops), rng.choice([0, 1, 2])))) if plan["silent"] and ops and rng.random() < 0.4 else []
+            recs.append({"ecu": e, "ops": ops, "tag": r + 1, "drops": drops, "lates": lates})
         plan["recs"] = recs
         plan["replay"] = rng.randrange(n_recs)
         plan["select"] = rng.choice(["name", "props", "both", "none"])
         plan["via_command"] = rng.random() < 0.2
+        # the recording host's wall clock is stepped back during a run (NTP correction, VM resume): row order is the order
+        # of transmission, whatever the time stamps say
+        plan["clock_back"] = rng.choice([0.5, 30.0, 3600.0]) if rng.random() < 0.15 else 0.0
         # the usual workflow: a discovery run found the endpoints (and some others) before any of them was scanned
         plan["discovery"] = None
         if rng.random() < 0.35:
@@ -136,6 +140,10 @@ class C12(Check):
         if plan.get("discovery"):
             p = copy.deepcopy(plan)
             p["discovery"] = None
+            yield p
+        if plan.get("clock_back"):
+            p = copy.deepcopy(plan)
+            p["clock_back"] = 0.0
             yield p
         if len(plan["recs"]) > 1:
             p = copy.deepcopy(plan)
@@ -181,12 +189,17 @@ class C12(Check):
             """gallia's server loop; the reply to the next request can be lost on the way back (silent-rows configuration)."""
 
             drop_next = False
+            late_next = False
 
             async def handle_request(self, request_pdu: bytes) -> tuple[bytes | None, float]:
                 reply, dt = await super().handle_request(request_pdu)
                 if self.drop_next:
                     self.drop_next = False
                     return None, dt
+                if self.late_next:
+                    # the ECU needs longer than the tester waits: its answer arrives while the tester already asks the next question
+                    self.late_next = False
+                    await asyncio.sleep(0.7)
                 return reply, dt
 
         async def record() -> None:
@@ -233,8 +246,14 @@ class C12(Check):
                 for oi, op in enumerate(r["ops"]):
                     if op.get("gap"):
                         await asyncio.sleep(op["gap"])
+                    if plan.get("clock_back") and oi % 4 == 3:
+                        world.epoch -= plan["clock_back"]
+                        holder["clock_steps"] = holder.get("clock_steps", 0) + 1
                     if oi in r.get("drops", []):
                         lossy[e["name"]].drop_next = True
+                    if oi in r.get("lates", []):
+                        lossy[e["name"]].late_next = True
+                        holder["lates"] = holder.get("lates", 0) + 1
                     if "dyn" in op:
                         key = last_seed if last_seed is not None else b"\x00"
                         if op["wrong"]:
@@ -390,6 +409,10 @@ class C12(Check):
             bump(res["faults"], "multi_recording_db")
         if plan.get("discovery"):
             bump(res["faults"], "addresses_known_from_discovery_run")
+        if holder.get("lates"):
+            bump(res["faults"], "reply_later_than_the_testers_timeout", holder["lates"])
+        if holder.get("clock_steps"):
+            bump(res["faults"], "wall_clock_stepped_back_while_recording", holder["clock_steps"])
 
 
 def make() -> Check:
